@@ -6,6 +6,66 @@ from checks import life_common as LC
 PID = 'C15'
 
 
+def other_libraries(ev, vd, d, quick, rnd):
+    """the solver, layout, topology and graph libraries under the same sanitizers: the harnesses of their own properties, built with
+    ASan+UBSan+LSan, on seeded inputs of those properties' generators (build, use, tear down; many objects per process)"""
+    from checks import layout_common as LAY
+    from checks import c13, c19
+    hv, hl, hd, ht, hh, hsp = V.build(['h_vpsc', 'h_layout', 'h_dialect', 'h_topo', 'h_heap', 'h_sp'], cfg='san')
+    env = {'ASAN_OPTIONS': 'detect_leaks=1:abort_on_error=0:exitcode=23', 'UBSAN_OPTIONS': 'print_stacktrace=1:halt_on_error=1'}
+    jobs = []
+    f = os.path.join(d, 'o_vpsc.txt')
+    V.run([hv, 'gen', str(150 if quick else 2000), str(V.seed() + 11), f, 'hist'], check=True, env=env)
+    jobs.append(('libvpsc', [hv, 'recs', f, f + '.json']))
+    f = os.path.join(d, 'o_sp.txt')
+    V.run([hsp, 'gen', str(40 if quick else 400), str(V.seed() + 12), f, '30'], check=True, env=env)
+    jobs.append(('libcola:shortest-paths', [hsp, 'recs', f, f + '.json', '10']))
+    cases = [LAY.gen_case(rnd, nmax=8) for _ in range(25 if quick else 400)] + [LAY.gen_case(rnd, want_overlap=True, clusters=True, nmax=8) for _ in range(10 if quick else 150)]
+    for c in cases:
+        c['flags'] &= ~16
+    f = os.path.join(d, 'o_layout.txt')
+    LAY.write_cases(f, cases)
+    jobs.append(('libcola:layout', [hl, 'run', f, f + '.json', '20', '0']))
+    scenes = [c13.gen_scene(rnd) for _ in range(15 if quick else 300)]
+    f = os.path.join(d, 'o_topo.txt')
+    with open(f, 'w') as fh:
+        for nodes, edges, drag, steps, dx, dy in scenes:
+            fh.write(' '.join(map(str, [len(nodes)] + [v for nd in nodes for v in nd] + [len(edges)] + [v for e in edges for v in e] + [drag, steps, dx, dy])) + '\n')
+    jobs.append(('libtopology', [ht, 'run', f, f + '.json']))
+    graphs = [c19.random_graph(rnd, rnd.randint(2, 25)) for _ in range(60 if quick else 1500)]
+    f = os.path.join(d, 'o_peel.txt')
+    open(f, 'w').write(''.join('%d %d %s\n' % (n, len(es), ' '.join('%d %d' % (e[0], e[1]) for e in es)) for n, es in graphs))
+    jobs.append(('libdialect:peel', [hd, 'peel', f, f + '.json']))
+    f = os.path.join(d, 'o_hola.txt')
+    with open(f, 'w') as fh:
+        for n, es in [c19.random_graph(rnd, rnd.randint(2, 12)) for _ in range(10 if quick else 150)]:
+            row = [n] + [v for i in range(n) for v in (rnd.choice([10, 20, 30]), rnd.choice([10, 20]), rnd.randint(0, 200), rnd.randint(0, 200))] + [len(es)] + [v for e in es for v in e] + [rnd.randint(0, 7)]
+            fh.write(' '.join(map(str, row)) + '\n')
+    jobs.append(('libdialect:hola', [hd, 'hola', f, f + '.json', '0', '0']))
+    ran = {}
+    for lib, cmd in jobs:
+        rc, out = V.run(['timeout', '-s', 'KILL', '1500'] + cmd, timeout=1600, env=env)
+        ran[lib] = rc
+        kind, frame = LC.san_kind(LC._report(out)) if rc != 0 or 'runtime error:' in out or 'Sanitizer' in out else (None, None)
+        if kind == 'lsan:leak':
+            # one finding per allocation site (the first library frame of each leak record), not per run
+            sites = {}
+            for blk in re.split(r'\n(?=(?:Direct|Indirect) leak of )', out):
+                if not blk.startswith('Direct leak'):
+                    continue
+                fr = re.findall(r'#\d+ 0x[0-9a-f]+ in ((?:vpsc|cola|topology|dialect|Avoid|straightener|shortest_paths)::[A-Za-z_:~]+)', blk)
+                site = fr[0] if fr else 'harness-or-unknown'
+                sites.setdefault(site, blk[:700])
+            for site, blk in sorted(sites.items()):
+                vd.violation('lsan:leak:%s:%s' % (site, lib), '%s leaks memory allocated in %s: %s' % (lib, site, blk[:400].replace('\n', ' | ')), {'library': lib, 'cmd': cmd[1:], 'report': blk})
+        elif kind:
+            fr = re.findall(r'#\d+ 0x[0-9a-f]+ in ((?:vpsc|cola|topology|dialect|Avoid|straightener|shortest_paths)::[A-Za-z_:~<>]+)', out)
+            vd.violation('%s:%s:%s' % (kind, fr[0] if fr else frame, lib), '%s under the sanitizers: %s' % (lib, LC._report(out)[:400].replace('\n', ' | ')), {'library': lib, 'cmd': cmd[1:], 'report': LC._report(out)[:3000]})
+        elif rc != 0:
+            vd.violation('process-died:%s' % lib, '%s harness died rc=%d under the sanitizers: %s' % (lib, rc, out[-400:].replace('\n', ' | ')), {'library': lib, 'rc': rc, 'tail': out[-2000:]})
+    ev.cov['other_libraries_under_sanitizers'] = ran
+
+
 def main(tier):
     ev = V.Evidence(PID, tier)
     vd = V.Verdict(PID, ev)
@@ -100,6 +160,7 @@ def main(tier):
                          {'matched': depth, 'context': [x[:300] for x in lines[max(0, depth - 8):depth + 1]]})
         for inv, st in V.violating_states(rt):
             vd.violation('life-trace-invariant:' + inv, 'recorded execution violates %s' % inv, st)
+    other_libraries(ev, vd, d, quick, rnd)
     ev.cov['traces_validated_against_impl'] = len(good)
     ev.cov['evaluations'] = len(execs)
     ev.cov['distinct_nontrivial'] = sum(1 for ex in execs if any(o[0] in (8, 9, 10, 12) for o in hists[ex['index']]))
@@ -107,7 +168,7 @@ def main(tier):
                       'sampled by TLC simulation and replayed on an ASan+UBSan+LSan build; non-trivial = history deletes an object or registers a hyperedge')
     ev.sample({'ops': hists[0], 'first_lines': [json.loads(x) for x in execs[0]['lines'][:3]] if execs else []})
     ev.assumptions = ['memory errors / UB below object level are observed by the sanitizers on the replayed histories, not by the specification',
-                      'libavoid only; solver/layout/graph lifecycles are exercised by the sanitizer-free harnesses of their own properties']
+                      'object-level protocol and trace validation for libavoid; libvpsc, libcola, libtopology and libdialect are run under the same sanitizers through the harnesses of their own properties (no protocol model: build, use, tear down)']
     rc = vd.finish()
     ev.write()
     return rc
